@@ -135,8 +135,10 @@ def noise_leaf(rng, kind):
     if kind == 'blnoise':
         n = {'t': 'blnoise', 'fs': fs, 'seed': rng.randint(0, 20), 'level': 1.0,
              'fl': rng.choice([1000, 2000]), 'fh': rng.choice([6000, 8000]), 'polarity': rng.choice([1, -1])}
-        if rng.random() < 0.3:
-            n.update(eq=True, level=60)         # equalize=True: a second filter state (the calibration's impulse response)
+        # (equalize=True -- only usable with a caller-written calibration that has `get_iir`; stim_common supports it as
+        # `eq` -- is NOT generated: SciPy filters the FIR equalising stage by convolution, whose round-off depends on the
+        # chunking, and the high-order direct-form band-pass behind it amplifies that to 1e-8 of full scale and more
+        # within 30 samples on the unchanged library; reported in the hardening notes, C10 draws it with equal chunking)
         return n
     if kind == 'firnoise':
         # (band edges as floats: with integer fl / fh the library truncates the scale factor to an integer -- np.full_like
@@ -200,11 +202,8 @@ def vary(rng, tree, transform=True):
                      discard=rng.random() < 0.5)
             if n['rolloff'] == 0.5:
                 n['stop_att'] = 60      # (half an octave and 80 dB: "Unstable filter coefficients", refused)
-            r = rng.random()
-            if r < 0.3:
+            if rng.random() < 0.4:
                 n.update(cal=True, level=60)
-            elif r < 0.65:
-                n.update(eq=True, level=60)     # equalised through the calibration's impulse response (second filter state)
         elif t == 'firnoise':
             n.update(window=rng.choice(['hann', 'hamming']), polarity=rng.choice([1, -1]),
                      equalize=rng.random() < 0.5, max_correction=rng.choice([np.inf, 10]))
@@ -1046,7 +1045,7 @@ class C01(Spec):
 
     @staticmethod
     def tol(c):
-        return S.FIR_TOL if c['kind'] in ('factory', 'exh') and S.is_fir(c['tree']) else 0.0
+        return S.tree_tol(c['tree']) if c['kind'] in ('factory', 'exh') else 0.0
 
     @staticmethod
     def compare(plan, mline, arr, tol, scale):
@@ -1400,7 +1399,7 @@ class C01(Spec):
         if isinstance(run, str) or any(isinstance(x, str) for x in run):
             return f'second object: chunks {h} raised but a single request for {n} samples is served'
         got = np.concatenate(run) if run else np.zeros(0)
-        tol = S.FIR_TOL if S.is_fir(tw['tree']) else 0.0
+        tol = S.tree_tol(tw['tree'])
         if not S.same(got, want, tol):
             i = S.first_diff(got, want)
             return (f'second object (built after and drawn interleaved with the first): chunks {h} differ from a single '
